@@ -1287,6 +1287,12 @@ func (c *SpecCtx) evalCall(x *ast.CallExpr) (Val, types.Type) {
 		return Implies(c.evalBool(x.Args[0]), c.evalBool(x.Args[1])), tBool
 	case "old":
 		return c.inOld().eval(x.Args[0])
+	case "strless":
+		// strless(a, b): a sorts strictly before b (the order sort.Strings uses; uninterpreted)
+		a, _ := c.eval(x.Args[0])
+		b, _ := c.eval(x.Args[1])
+		declFun("s_lt", SBool, SStr, SStr)
+		return App("s_lt", SBool, a.(*Term), b.(*Term)), tBool
 	case "sprintf":
 		var ts []*Term
 		for _, a := range x.Args {
